@@ -1776,7 +1776,11 @@ class _AssociationDict(_AssociationCollection[_VT], MutableMapping[_KT, _VT]):
     ) -> Union[_VT, _T]: ...
 
     def pop(self, __key: _KT, /, *arg: Any, **kw: Any) -> Union[_VT, _T]:
-        member = self.col.pop(__key, *arg, **kw)
+        if __key not in self.col:
+            # absent: the underlying collection raises KeyError or hands
+            # back the default, which is a plain value and not a member
+            return self.col.pop(__key, *arg, **kw)  # type: ignore[return-value]  # noqa: E501
+        member = self.col.pop(__key)
         return self._get(member)
 
     def popitem(self) -> Tuple[_KT, _VT]:
